@@ -78,8 +78,8 @@ func checkMemoOutput(p *Program, r *Report, rule string) {
 // checkJoinNames: every input of joinNames can reach its result (the names
 // collected so far, both current names and the other context's names).
 func checkJoinNames(p *Program, r *Report, rule string) {
-	fn := p.Func("template", "joinNames")
-	const cn = "template.joinNames#keeps-all-names"
+	fn := findJoinNames(p)
+	const cn = "template.joinNames#keeps-all-names" // construct name kept stable across renames of the helper
 	if fn == nil {
 		r.Undec(rule, cn, "", "anchor not found")
 		return
